@@ -23,6 +23,11 @@ theorem qinter_xor_right (a b : QSet) : b.inter (a.xor b) = b.inter a.compl := b
 theorem qcompl_union (a b : QSet) : (a.union b).compl = a.compl.inter b.compl := by
   funext q; simp only [QSet.union, QSet.inter, QSet.compl]; cases a q <;> cases b q <;> rfl
 
+theorem qbeq_comm (a b : QSet) : a.beq b = b.beq a := by
+  simp only [QSet.beq]; congr 1; funext q; cases a q <;> cases b q <;> rfl
+theorem qxor_comm (a b : QSet) : a.xor b = b.xor a := by
+  funext q; simp only [QSet.xor]; cases a q <;> cases b q <;> rfl
+
 theorem gen_tcpSignaturesMatch (s : Sig) (p : PSig) (d : Int) : Gen.tcpSignaturesMatch s p d = tcpMatch s p d := by
   first
   | exact rfl
@@ -30,7 +35,9 @@ theorem gen_tcpSignaturesMatch (s : Sig) (p : PSig) (d : Int) : Gen.tcpSignature
      simp only [qset_ofList_union, List.cons_append, List.nil_append, optInt_bne_wild, optInt_beq_wild, optInt_bne_cast,
        optBoolInt_bne_wild, optBoolInt_bne_bool, natCast_beq_ofNat, natCast_bne_ofNat, fmod_natCast, natCast_bne_zero,
        natCast_beq_cast, natCast_bne_cast, qxor_inter_left, qxor_inter_right, qinter_xor_left, qinter_xor_right]
-     grind (splits := 60))
+     first
+     | grind (splits := 60)
+     | grind (splits := 60) [qbeq_comm, qxor_comm])
 
 /-- **C01 against the source text**: `tcp_signatures_match` as printed from the working tree follows the
     declarative p0f matching rules, for every signature, packet signature and `max_dist`. -/
